@@ -517,6 +517,26 @@ def rule_w6(chk: Check) -> None:
             if not ok:
                 chk.finding("W6", fi.key, f"unfunnelled:{norm(c)[:50]}", f"`{norm(c)}` runs foreign code outside a catch-all try: an exception escapes the callback and no response is ever written", fi.loc(c))
             chk.ob("W6", f"{fi.key}:{norm(c)[:50]}", ok)
+            if mc and mc[1] == "result":
+                # Task.result() raises CancelledError when the task ended cancelled, and that is a
+                # BaseException: `except Exception` lets it through.  It must be caught (bare
+                # except, BaseException or CancelledError), or ruled out by a cancelled() test.
+                types = {t for h in hs for t in handler_types(h.ast)}
+                covered = bool(types & {None, "BaseException", "CancelledError", "asyncio.CancelledError"})
+                guarded = False
+                for t in g.nodes:
+                    if t.kind == "test" and t.ast is not None and any(method_call(x) and method_call(x)[1] == "cancelled" and dotted(method_call(x)[0]) == dotted(mc[0]) for x in calls(t.ast)):
+                        blocked = {(t.id, b, lab) for b, lab in g.succ[t.id] if lab == "F"}
+                        if node.id not in g.reach([g.entry.id], blocked_edges=blocked) or node.id not in g.reach([g.entry.id], blocked_edges={(t.id, b, lab) for b, lab in g.succ[t.id] if lab == "T"}):
+                            guarded = True
+                okc = covered or guarded
+                if not okc:
+                    chk.finding(
+                        "W6", fi.key, f"cancelled-task:{norm(c)[:40]}",
+                        f"`{norm(c)}` raises CancelledError when the handler / middleware task ended cancelled; that is a BaseException, the surrounding `except {sorted(str(t) for t in types)}` does not catch it, so the done-callback dies: nothing is written and the connection is never closed",
+                        fi.loc(c),
+                    )
+                chk.ob("W6", f"{fi.key}:{norm(c)[:40]} cancelled task handled", okc)
     chk.floor("W6", "foreign-code call sites", n, 4)
 
 
@@ -578,14 +598,14 @@ def _int_like(v: ast.AST) -> bool:
     return (isinstance(v, ast.Constant) and isinstance(v.value, int)) or (isinstance(v, ast.Attribute) and v.attr in ("status", "value"))
 
 
-def _contained(proj, ci: ClassInfo, fi: FunctionInfo, inner: ast.AST, seen: set, chain: list[str]) -> list[str] | None:
+def _contained(proj, ci: ClassInfo, fi: FunctionInfo, inner: ast.AST, seen: set, chain: list[str], catches=None) -> list[str] | None:
     """None if an exception (UnicodeEncodeError) raised at `inner` inside `fi`
     is always caught before it leaves a protocol callback; otherwise the call
     chain along which it escapes."""
     for t in walk(fi.node):
         if isinstance(t, ast.Try) and any(sub is inner for b in t.body for sub in ast.walk(b)):
             for h in t.handlers:
-                if any(x in _CATCHES_UNICODE for x in handler_types(h)):
+                if any(x in (catches or _CATCHES_UNICODE) for x in handler_types(h)):
                     return None
     if fi.key in seen:
         return None
@@ -598,7 +618,7 @@ def _contained(proj, ci: ClassInfo, fi: FunctionInfo, inner: ast.AST, seen: set,
     if not callers:
         return chain + [fi.node.name]  # an entry point (asyncio callback / done-callback): the exception escapes
     for m, c in callers:
-        esc = _contained(proj, ci, m, c, seen, chain + [fi.node.name])
+        esc = _contained(proj, ci, m, c, seen, chain + [fi.node.name], catches)
         if esc is not None:
             return esc
     return None
@@ -713,6 +733,37 @@ def rule_w8(chk: Check) -> None:
     chk.ob("W8", "constant subscripts in the request parsers examined", True, f"{n} sites in {len(parsers)} parsers", nontrivial=False)
 
 
+def rule_w10(chk: Check) -> None:
+    """The error path is total.  Refusals are sent by building a response object
+    from a message that may echo the client's line; if the response class
+    validates in __init__ / __post_init__ and raises, that construction must not
+    be able to leave the callback, or the refusal itself is lost."""
+    chk.rule("W10", "constructing a response inside the protocol cannot leave a callback: the response class does not raise on construction, or every construction site is caught up to the asyncio callback")
+    from .c13 import _raise_set
+
+    ci = chk.proj.cls(SERVER_PROTO)
+    n = 0
+    for fi in ci.methods.values():
+        for c in calls(fi.node):
+            if (dotted(c.func) or "").split(".")[-1] != "GeminiResponse":
+                continue
+            rs = _raise_set(c, chk.proj)
+            n += 1
+            if not rs:
+                continue
+            catches = {None, "Exception", "BaseException"} | rs | ({"ValueError"} if any(r in ("UnicodeError", "UnicodeDecodeError") for r in rs) else set())
+            esc = _contained(chk.proj, ci, fi, c, set(), [], catches)
+            ok = esc is None
+            if not ok:
+                chk.finding(
+                    "W10", fi.key, f"response-ctor-may-escape:{'+'.join(sorted(rs))}",
+                    f"`{norm(c)[:60]}` can raise {sorted(rs)} (the response class validates its fields on construction) and along {' <- '.join(esc)} nothing catches it: a refusal whose message echoes a long request line cannot be built, the exception leaves the callback and the client gets no response",
+                    fi.loc(c),
+                )
+            chk.ob("W10", f"{fi.key}: `{norm(c)[:40]}` cannot escape", ok)
+    chk.ob("W10", "response constructions in the protocol examined", True, f"{n} sites", nontrivial=False)
+
+
 def run(chk: Check) -> None:
     sinks = rule_w1(chk)
     rule_w2(chk, sinks)
@@ -721,6 +772,7 @@ def run(chk: Check) -> None:
     rule_w6(chk)
     rule_w7(chk, sinks)
     rule_w8(chk)
+    rule_w10(chk)
     from .c15 import rule_x5
     from .common import reuse
 
